@@ -88,6 +88,14 @@ func genPoolOp(r *Rng) *Op {
 		op.Fn = "X25519"
 		op.Pt = []int{0, 0, 0, 1, 2, 2, 3, 5}[r.Intn(8)]
 		op.ML = r.Intn(8)
+		if r.Chance(1, 3) { // refused calls: wrong scalar or point length
+			if r.Chance(1, 2) {
+				op.KL = lenCode(keyLens[r.Intn(len(keyLens))])
+			} else {
+				op.Pt = 4
+				op.SL = lenCode(keyLens[r.Intn(len(keyLens))])
+			}
+		}
 	case 9:
 		op.Fn = "ScalarBaseMult"
 	case 10:
@@ -399,6 +407,8 @@ type ConcStats struct {
 	Switches   int            `json:"switches"`
 	Preempt    int            `json:"preemptions_inside_op"`
 	Blocked    int            `json:"blocked_yields"`
+	Spawned    int            `json:"library_goroutines"`
+	Leaked     int            `json:"leaked_library_goroutines"`
 	GCs        int            `json:"forced_gcs"`
 	Families   map[string]int `json:"families"`
 	Overlap    map[string]int `json:"overlap"`
@@ -463,6 +473,7 @@ type clientState struct {
 	inOp  bool
 	prog  int64
 	done  bool
+	child bool // a goroutine started by the library itself
 }
 
 func clientMain(id int, cs *clientState, wg *sync.WaitGroup) {
@@ -508,13 +519,32 @@ func runEpisode(ep *Episode, pool []*Op, refs []Ref, st *ConcStats, a *concArgs)
 			// it will report task-done on its first grant
 		}
 	}
+	var prio []int
+	top := T // top-level clients; ids >= top are goroutines the library started
+	topLive := T
+	// adopt registers goroutines the library started since the last look
+	adopt := func() {
+		for _, id := range zzsimrt.TakeSpawned() {
+			for len(cl) <= id {
+				cl = append(cl, &clientState{child: true, done: true})
+			}
+			cl[id] = &clientState{child: true}
+			for len(prio) <= id {
+				prio = append(prio, 0)
+			}
+			prio[id] = r.Intn(2*len(cl) + 2)
+			live++
+			st.Spawned++
+		}
+		T = len(cl)
+	}
 	var grants []Grant
 	explicit := ep.Grants != nil
 	gi := 0
 	last := -1
 	blockedStreak := 0
 	// PCT state
-	prio := make([]int, T)
+	prio = make([]int, T)
 	for i := range prio {
 		prio[i] = i
 	}
@@ -615,6 +645,17 @@ func runEpisode(ep *Episode, pool []*Op, refs []Ref, st *ConcStats, a *concArgs)
 				g.G = true
 			}
 		}
+		// whatever the family chose: never hand the baton to a client that is
+		// known to be blocked (or done) while another one can still run - a
+		// caller waiting for goroutines the library started must let them run
+		if cl[g.C].done || (blockedSet[g.C] && len(blockedSet) < live) {
+			for c := 0; c < T; c++ {
+				if !cl[c].done && !blockedSet[c] {
+					g.C = c
+					break
+				}
+			}
+		}
 		if g.G {
 			runtime.GC()
 			st.GCs++
@@ -639,6 +680,7 @@ func runEpisode(ep *Episode, pool []*Op, refs []Ref, st *ConcStats, a *concArgs)
 		if who != g.C {
 			infra("baton: granted client %d, client %d answered", g.C, who)
 		}
+		adopt()
 		st.Switches++
 		last = g.C
 		switch kind {
@@ -653,7 +695,7 @@ func runEpisode(ep *Episode, pool []*Op, refs []Ref, st *ConcStats, a *concArgs)
 				lowest--
 			}
 			dec := int64(9)
-			if cs.opIdx < len(cs.ops) {
+			if !cs.child && cs.opIdx < len(cs.ops) {
 				if sp := refs[ep.Clients[g.C][cs.opIdx]].Pts; sp > 0 && cs.prog*10/sp < 9 {
 					dec = cs.prog * 10 / sp
 				}
@@ -669,12 +711,24 @@ func runEpisode(ep *Episode, pool []*Op, refs []Ref, st *ConcStats, a *concArgs)
 		case zzsimrt.KTaskDone:
 			cs.done = true
 			live--
+			if !cs.child {
+				topLive--
+			} else {
+				zzsimrt.Release(g.C)
+			}
 			blockedStreak = 0
 			blockedSet = map[int]bool{}
 		case zzsimrt.KBlocked:
 			st.Blocked++
 			blockedStreak++
 			blockedSet[g.C] = true
+			if topLive == 0 && len(blockedSet) >= live {
+				// only goroutines of the library are left and none can run:
+				// they are leaked, not deadlocked callers; leave them parked
+				st.Leaked += live
+				live = 0
+				break
+			}
 			if len(blockedSet) >= live && blockedStreak > 4*live+8 {
 				// every live client is spinning on a lock nobody can release
 				v := &ViolationRec{T: "violation", Prop: "C15", CheckID: "conc-deadlock", Engine: "conc",
@@ -703,7 +757,11 @@ func runEpisode(ep *Episode, pool []*Op, refs []Ref, st *ConcStats, a *concArgs)
 		st.sigs[fmt.Sprintf("%016x", sigAcc)] = true
 	}
 	// R1 / R3 / R4: every outcome equals its solo reference
-	for c := 0; c < T; c++ {
+	if zzsimrt.ChildOverrun() && viol == nil {
+		viol = &ViolationRec{T: "violation", Prop: "C15", CheckID: "conc-progress", Engine: "conc",
+			Msg: "a goroutine started by the library ran past its step budget"}
+	}
+	for c := 0; c < top; c++ {
 		for j, o := range cl[c].outs {
 			pi := ep.Clients[c][j]
 			st.Calls++
@@ -728,6 +786,16 @@ func runEpisode(ep *Episode, pool []*Op, refs []Ref, st *ConcStats, a *concArgs)
 				viol = &ViolationRec{T: "violation", Prop: "C15", CheckID: "conc-input-modified", Engine: "conc",
 					Msg:      fmt.Sprintf("client %d op %d (%s, pool #%d) wrote to a shared, caller-owned input (read-only page fault)", c, j, pool[pi].Fn, pi),
 					Expected: "inputs are only read", Actual: o.Digest()}
+			}
+			if !o.Stable() && viol == nil {
+				viol = &ViolationRec{T: "violation", Prop: "C15", CheckID: "conc-result-changed-later", Engine: "conc",
+					Msg:      fmt.Sprintf("client %d op %d (%s, pool #%d): what the call returned (bytes or error value) changed after later calls were made", c, j, pool[pi].Fn, pi),
+					Expected: o.snap, Actual: o.snapshot()}
+			}
+			if o.AliasesInput && viol == nil {
+				viol = &ViolationRec{T: "violation", Prop: "C15", CheckID: "conc-result-aliases-input", Engine: "conc",
+					Msg:      fmt.Sprintf("client %d op %d (%s, pool #%d) returned a slice that points into the shared, read-only input it was given", c, j, pool[pi].Fn, pi),
+					Expected: "a fresh object", Actual: o.Digest()}
 			}
 			if d := o.Digest(); d != refs[pi].Digest && viol == nil {
 				check := "conc-isolation"
